@@ -247,6 +247,14 @@ def _tar_names(prog, f):
                 for t in n.targets:
                     if isinstance(t, ast.Name):
                         out.add(t.id)
+        elif isinstance(n, ast.With):
+            # with tarfile.open(..) as tar:
+            for it in n.items:
+                if isinstance(it.context_expr, ast.Call) and \
+                        isinstance(it.optional_vars, ast.Name):
+                    r = prog.resolve(f.module, it.context_expr.func)
+                    if r and r[0] == 'ext' and r[1] == 'tarfile.open':
+                        out.add(it.optional_vars.id)
     return out
 
 
@@ -2555,6 +2563,683 @@ def r11_4s(prog, rep, rid='R11.4s'):
 
 
 # ------------------------------------------------------------------------------
+# R11.10  the tarball of TARBALL directives is written by the client side input
+#         stager and unpacked by the agent side input stager: the location the
+#         member names are relative to (writer) and the directory the archive
+#         is unpacked under (reader) are the same location.  tarfile.add()
+#         removes the leading '/' of a member name, so a member named by an
+#         absolute path is a member named relative to the file system root.
+#
+# abstract values of a path expression:
+#   ('root',)            the string '/'
+#   ('raw', k)           the directive's 'target' / 'source' entry as given
+#   ('urlstr', O)        URL string of O
+#   ('url', O)           Url object of O
+#   ('path', O)          absolute path of O
+#   ('rel', O, B)        path of O relative to location B
+#   ('?', text)          anything else
+# with O, B in ('target',), ('source',), ('loc', <task entry>)
+#
+_NORMAL   = {'next', 'T', 'F', 'iter', 'done'}
+_LOC_KEYS = set(CTX_SOURCE.values())
+
+
+class PathEval:
+
+    def __init__(self, prog, f, cls, binding=None):
+        self.prog, self.f, self.cls = prog, f, cls
+        self.g       = cfg_of(f)
+        self.smap    = I.stmt_node_map(self.g)
+        self.binding = binding           # (PathEval of the caller, call)
+        self.curl    = prog.function(SD, 'complete_url')
+        # Url objects whose path is written in this function
+        self.dirty = set()
+        for kind, target, stmt in I.stores(f.node):
+            if isinstance(target, ast.Attribute) and target.attr == 'path':
+                self.dirty.add(dotted(target.value))
+
+    def ext(self, e):
+        r = self.prog.resolve(self.f.module, e)
+        return r[1] if r and r[0] == 'ext' else None
+
+    def node_of(self, e):
+        n = self.smap.get(id(e))
+        if n is None:
+            raise AnalysisError('UNRECOGNISED-IDIOM %s: `%s` is not part of a '
+                                'statement of the control flow graph'
+                                % (self.f.where, short(e, 50)))
+        return n.id
+
+    def eval(self, e, nid, seen=frozenset()):
+        """set of abstract values `e` may have when cfg node `nid` runs"""
+        U = lambda: {('?', short(e, 40))}
+        if isinstance(e, ast.Constant):
+            if e.value in ('/', ):
+                return {('root',)}
+            return U()
+        if isinstance(e, ast.IfExp):
+            return self.eval(e.body, nid, seen) | self.eval(e.orelse, nid, seen)
+        if isinstance(e, ast.Name):
+            return self._name(e, nid, seen)
+        if isinstance(e, ast.Attribute):
+            if self.ext(e) in ('os.sep', 'os.path.sep'):
+                return {('root',)}
+            if e.attr == 'path':
+                if dotted(e.value) in self.dirty:
+                    return U()
+                return {('path', v[1]) if v[0] == 'url' else ('?', short(e, 40))
+                        for v in self.eval(e.value, nid, seen)}
+            return U()
+        if isinstance(e, ast.Subscript):
+            if isinstance(e.slice, ast.Constant):
+                k = e.slice.value
+                if k in ('target', 'source'):
+                    return {('raw', k)}
+                if k in _LOC_KEYS:
+                    return {('urlstr', ('loc', k))}
+                return U()
+            if isinstance(e.slice, ast.Slice) and e.slice.upper is None and \
+                    e.slice.step is None and e.slice.lower is not None:
+                lo = e.slice.lower
+                if isinstance(lo, ast.Constant) and lo.value == 1:
+                    # cuts the leading '/'
+                    return {v if v[0] in ('path', 'rel') else
+                            ('?', short(e, 40))
+                            for v in self.eval(e.value, nid, seen)}
+                bases = self._len_of(lo, nid, seen)
+                if bases is not None:
+                    return self._cut(e, self.eval(e.value, nid, seen), bases,
+                                     keeps=False)
+            return U()
+        if isinstance(e, ast.Call):
+            return self._call(e, nid, seen)
+        return U()
+
+    def _name(self, e, nid, seen):
+        from ..flow import reaching_defs
+        if (e.id, nid) in seen:
+            return set()
+        seen = seen | {(e.id, nid)}
+        defs = reaching_defs(self.g, e.id, nid)
+        if not defs:
+            params = [p for p in self.f.params if p != 'self']
+            if e.id in params and self.binding is not None:
+                cev, call = self.binding
+                i = params.index(e.id)
+                arg = call.args[i] if i < len(call.args) and not any(
+                    isinstance(a, ast.Starred) for a in call.args) \
+                    else kwarg(call, e.id)
+                if arg is not None:
+                    return cev.eval(arg, cev.node_of(call))
+            return {('?', e.id)}
+        out = set()
+        for n, v in defs:
+            if v is None:
+                out.add(('?', e.id))
+            else:
+                out |= self.eval(v, n.id, seen)
+        return out
+
+    def _len_of(self, e, nid, seen):
+        """values X if `e` is len(X) (directly or through a name), else None"""
+        if isinstance(e, ast.Name):
+            from ..flow import reaching_defs
+            defs = reaching_defs(self.g, e.id, nid)
+            if len(defs) == 1 and defs[0][1] is not None:
+                return self._len_of(defs[0][1], defs[0][0].id, seen)
+            return None
+        if isinstance(e, ast.Call) and isinstance(e.func, ast.Name) and \
+                e.func.id == 'len' and len(e.args) == 1 and not e.keywords:
+            return self.eval(e.args[0], nid, seen)
+        return None
+
+    def _cut(self, e, vals, bases, keeps):
+        """values of `vals` with a leading `bases` removed; keeps: the value
+        is kept as it is when it does not start with the base"""
+        out = set()
+        for v in vals:
+            for b in bases:
+                if v[0] == 'path' and b[0] == 'path' and b[1][0] == 'loc':
+                    out.add(('rel', v[1], b[1]))
+                    if keeps:
+                        out.add(v)
+                else:
+                    out.add(('?', short(e, 40)))
+        return out or {('?', short(e, 40))}
+
+    def _call(self, e, nid, seen):
+        U = {('?', short(e, 40))}
+        args = e.args
+        if any(isinstance(a, ast.Starred) for a in args) or \
+                any(k.arg is None for k in e.keywords):
+            return U
+        x = self.ext(e.func)
+        if x == 'radical.utils.Url' and len(args) == 1 and not e.keywords:
+            return {('url', v[1]) if v[0] in ('url', 'urlstr') else
+                    ('?', short(e, 40)) for v in self.eval(args[0], nid, seen)}
+        if isinstance(e.func, ast.Name) and e.func.id == 'str' and \
+                len(args) == 1:
+            return {('urlstr', v[1]) if v[0] == 'url' else v
+                    for v in self.eval(args[0], nid, seen)}
+        if x in ('os.path.normpath', 'os.path.abspath') and len(args) == 1:
+            return {v if v[0] in ('path', 'root') or
+                    (v[0] == 'rel' and x == 'os.path.normpath')
+                    else ('?', short(e, 40))
+                    for v in self.eval(args[0], nid, seen)}
+        if x == 'os.path.relpath':
+            start = kwarg(e, 'start', 1)
+            if args and start is not None:
+                return self._cut(e, self.eval(args[0], nid, seen),
+                                 self.eval(start, nid, seen), keeps=False)
+            return U
+        callee = self.prog.resolve_callable(self.f, e.func, self.cls)
+        if callee is not None and callee.node is self.curl.node and args:
+            return {('url', (v[1],)) if v[0] == 'raw' else
+                    ('?', short(e, 40)) for v in self.eval(args[0], nid, seen)}
+        if isinstance(e.func, ast.Attribute):
+            recv, m = e.func.value, e.func.attr
+            if m in ('lstrip', 'strip') and len(args) == 1 and \
+                    self.eval(args[0], nid, seen) == {('root',)}:
+                # tarfile.add() does the same to the member name
+                return {v if v[0] in ('path', 'rel') else ('?', short(e, 40))
+                        for v in self.eval(recv, nid, seen)}
+            if m == 'removeprefix' and len(args) == 1:
+                return self._cut(e, self.eval(recv, nid, seen),
+                                 self.eval(args[0], nid, seen), keeps=True)
+            if m == 'replace' and len(args) in (2, 3) and \
+                    isinstance(args[1], ast.Constant) and args[1].value == '':
+                return self._cut(e, self.eval(recv, nid, seen),
+                                 self.eval(args[0], nid, seen), keeps=True)
+        return U
+
+
+def tar_sites(s, attrs, depth=2):
+    """calls `<tarfile object>.<attr>(..)` in the handler of stager `s` and in
+    the methods of its module the handler calls: [(PathEval, call)]"""
+    out, done = [], set()
+
+    def scan(f, binding, d):
+        if id(f.node) in done:
+            return
+        done.add(id(f.node))
+        ev = PathEval(s.prog, f, s.cls, binding)
+        names = tar_names(s.prog, f)
+        for c in calls_in(f.node):
+            if isinstance(c.func, ast.Attribute) and \
+                    isinstance(c.func.value, ast.Name) and \
+                    c.func.value.id in names:
+                if c.func.attr in attrs:
+                    out.append((ev, c))
+            elif d > 0 and not is_neutral(c) and \
+                    dotted(c.func).startswith('self.'):
+                callee = s.prog.resolve_call(f, c, s.cls)
+                if callee is not None and callee.cls is not None and \
+                        callee.module.rel == s.rel:
+                    scan(callee, (ev, c), d - 1)
+    scan(s.handler, None, depth)
+    return out
+
+
+def _base_text(b):
+    if b == ('root',):
+        return 'the file system root'
+    if b == ('cwd',):
+        return 'the working directory of the agent'
+    if b == ('source',):
+        return 'nothing (the member is named by the path of the source)'
+    return 'the location task[%r]' % b[1]
+
+
+def r11_10(prog, rep, rid='R11.10'):
+    rep.rule(rid, 'tarball of TARBALL directives: every member is named '
+             'relative to one location (an absolute path = relative to `/`, '
+             'tarfile strips the leading slash) and the agent unpacks the '
+             'archive under that same location', minimum=2)
+    ci = [x for x in stagers(prog) if x.label == 'client-in'][0]
+    ai = [x for x in stagers(prog) if x.label == 'agent-in'][0]
+    for s in (ci, ai):
+        for ev, c in tar_sites(s, ('addfile', 'extractfile')):
+            raise AnalysisError(
+                'UNRECOGNISED-IDIOM %s: `%s` - %s follows member names only '
+                'through add(name, arcname) and extract/extractall(path)'
+                % (ev.f.where, short(c, 50), rid))
+    writers = tar_sites(ci, ('add',))
+    readers = tar_sites(ai, ('extractall', 'extract'))
+    if not writers and not readers:
+        for what in ('written', 'unpacked'):
+            rep.ok(rid, ci.handler if what == 'written' else ai.handler,
+                   'no tarball is %s through a tarfile object (nothing to '
+                   'pair)' % what, ci.handler.loc())
+        return
+    if not writers or not readers:
+        raise AnalysisError(
+            'UNRECOGNISED-IDIOM %s: %d tarfile add() site(s) in the client '
+            'input stager but %d extract site(s) in the agent input stager'
+            % (rid, len(writers), len(readers)))
+
+    # writer: base of the member names
+    wbases = {}                     # base -> (FuncInfo, call)
+    for ev, c in writers:
+        f = ev.f
+        rep.saw(f)
+        name = kwarg(c, 'arcname', 1)
+        if name is None:
+            name = kwarg(c, 'name', 0)
+            if name is None:
+                raise AnalysisError('UNRECOGNISED-IDIOM %s: `%s` has no member '
+                                    'name' % (f.where, short(c, 50)))
+        bases = set()
+        for v in ev.eval(name, ev.node_of(c)):
+            if v == ('path', ('target',)):
+                bases.add(('root',))
+            elif v[0] == 'rel' and v[1] == ('target',) and v[2][0] == 'loc':
+                bases.add(v[2])
+            elif v == ('path', ('source',)):
+                bases.add(('source',))
+            else:
+                raise AnalysisError(
+                    'UNRECOGNISED-IDIOM %s: the member name `%s` of `%s` is '
+                    'neither the path of the completed target nor that path '
+                    'relative to a sandbox of the task (%s)'
+                    % (f.where, short(name, 50), short(c, 50), v[-1]))
+        for b in bases:
+            wbases.setdefault(b, (f, c))
+        good = len(bases) == 1 and ('source',) not in bases
+        rep.check(good, rid, f,
+                  'every member added by `%s` is named relative to one '
+                  'location' % short(c, 50),
+                  construct='member names',
+                  message='%s packs the files of TARBALL directives with '
+                  'member names `%s` which are relative to %s: the agent '
+                  'unpacks the whole archive under ONE directory, so for each '
+                  'such directory the members named relative to another '
+                  'location end up elsewhere than the directive\'s target '
+                  '(tarfile.add() strips the leading `/`: an absolute member '
+                  'name is a name relative to the file system root, it is NOT '
+                  'unpacked to its absolute path)'
+                  % (f.qual, short(name, 60),
+                     ' / '.join(sorted(_base_text(b) for b in bases))),
+                  loc=f.loc(c),
+                  history='task with input directives {action: TARBALL, '
+                  'target: task:///data/a.dat} and {action: TARBALL, target: '
+                  'pilot:///shared/b.dat}: whatever directory the agent '
+                  'unpacks under, one of the two files is not where its '
+                  'directive says; input staging ends without an error and '
+                  'the task is advanced to AGENT_SCHEDULING_PENDING')
+
+    # reader: the directory the archive is unpacked under
+    for ev, c in readers:
+        f = ev.f
+        rep.saw(f)
+        root = kwarg(c, 'path', 0 if c.func.attr == 'extractall' else 1)
+        roots = set()
+        if root is None:
+            roots.add(('cwd',))
+        else:
+            for v in ev.eval(root, ev.node_of(c)):
+                if v == ('root',):
+                    roots.add(v)
+                elif v[0] == 'path' and v[1][0] == 'loc':
+                    roots.add(v[1])
+                else:
+                    raise AnalysisError(
+                        'UNRECOGNISED-IDIOM %s: the directory `%s` of `%s` is '
+                        'neither `/` nor the path of a sandbox of the task '
+                        '(%s)' % (f.where, short(root, 50), short(c, 50),
+                                  v[-1]))
+        miss = sorted((b, r) for b in wbases for r in roots if b != r)
+        wf, wc = wbases[miss[0][0]] if miss else list(wbases.values())[0]
+        rep.check(not miss, rid, f,
+                  '`%s` unpacks under the location the member names are '
+                  'relative to' % short(c, 50),
+                  construct='extraction root',
+                  message='%s unpacks the tarball of the TARBALL directives '
+                  'with `%s`, i.e. under %s, but %s (`%s`) names members '
+                  'relative to %s: those members are unpacked to <%s>/<member '
+                  'name> instead of the target of their directive (tarfile '
+                  'strips the leading `/` of absolute member names when the '
+                  'archive is written, every member is relative to the '
+                  'extraction directory)'
+                  % (f.qual, short(c, 50),
+                     _base_text(miss[0][1]) if miss else '',
+                     wf.qual, short(wc, 60),
+                     _base_text(miss[0][0]) if miss else '',
+                     _base_text(miss[0][1]) if miss else ''),
+                  loc=f.loc(c),
+                  history='task with the input directive {action: TARBALL, '
+                  'source: in.dat, target: pilot:///shared/in.dat} (or any '
+                  'TARBALL target outside of the directory the agent unpacks '
+                  'under): client and agent input staging end without an '
+                  'error, the task is advanced to AGENT_SCHEDULING_PENDING, '
+                  'and <pilot sandbox>/shared/in.dat does not exist - the '
+                  'file is at <extraction directory>/<member name>')
+
+
+# ------------------------------------------------------------------------------
+# R11.11  a backend / facade operation of the staging helper reaches its file
+#         system effect on every path which ends without an exception; an early
+#         return which is decided by what the helper object remembers (instance
+#         state) instead of by the state of the file system is a violation: the
+#         file system is shared with other helper instances, the task payloads
+#         and clean-ups
+#
+BACKEND_PURE_EXT = ('os.path.', 'radical.utils.Url')
+FS_PROBES = {'os.path.exists', 'os.path.lexists', 'os.path.isdir',
+             'os.path.isfile', 'os.path.islink', 'os.path.ismount',
+             'os.path.getsize', 'os.path.getmtime', 'os.path.samefile',
+             'os.path.realpath', 'os.access', 'os.stat', 'os.lstat',
+             'os.listdir'}
+CONTAINERS = {'set', 'dict', 'list', 'tuple', 'frozenset',
+              'collections.defaultdict', 'collections.OrderedDict',
+              'collections.deque', 'collections.Counter'}
+
+
+def staging_backends(prog):
+    """(facade class, [backend classes], {delegated operation names})"""
+    helper = prog.cls(HELPER, 'StagingHelper')
+    backends, delegated = [], set()
+    for k in prog.mro(helper):
+        for m in k.methods.values():
+            for n in walk(m.node):
+                if isinstance(n, ast.Assign) and any(
+                        dotted(t) == 'self._backend' for t in n.targets) and \
+                        isinstance(n.value, ast.Call):
+                    r = prog.resolve(m.module, n.value.func)
+                    if r and r[0] == 'class' and r[1] not in backends:
+                        backends.append(r[1])
+    for m in helper.methods.values():
+        for c in calls_in(m.node):
+            d = call_name(c)
+            if d.startswith('self._backend.'):
+                delegated.add(d.split('.')[-1])
+                delegated.add(m.name)
+    return helper, backends, delegated
+
+
+def state_containers(prog, cls):
+    """`self.<attr>` which hold plain containers (what the object remembers)"""
+    out = set()
+    for k in prog.mro(cls):
+        for m in k.methods.values():
+            for n in walk(m.node):
+                if not isinstance(n, (ast.Assign, ast.AnnAssign)) or \
+                        n.value is None:
+                    continue
+                v = n.value
+                plain = isinstance(v, (ast.Set, ast.Dict, ast.List, ast.Tuple,
+                                       ast.ListComp, ast.SetComp,
+                                       ast.DictComp)) or (
+                    isinstance(v, ast.Call) and dotted(v.func) in CONTAINERS)
+                if plain:
+                    tg = n.targets if isinstance(n, ast.Assign) else [n.target]
+                    for t in tg:
+                        d = dotted(t)
+                        if d.startswith('self.') and d.count('.') == 1:
+                            out.add(d)
+    return out
+
+
+class BackendOps:
+    """classification of the calls of the methods of one helper class"""
+
+    def __init__(self, prog, cls):
+        self.prog, self.cls = prog, cls
+        self.containers = state_containers(prog, cls)
+        self._eff = {}
+
+    def ext(self, m, e):
+        r = self.prog.resolve(m.module, e)
+        return r[1] if r and r[0] == 'ext' else None
+
+    def kind(self, m, c, depth=2):
+        """'effect' | 'probe' | None (logging, computation, book-keeping)"""
+        if is_neutral(c):
+            return None
+        x = self.ext(m, c.func)
+        if x is not None:
+            if x in FS_PROBES:
+                return 'probe'
+            if any(x == p or (p.endswith('.') and x.startswith(p))
+                   for p in BACKEND_PURE_EXT):
+                return None
+            return 'effect'
+        if isinstance(c.func, ast.Name):
+            return None if c.func.id in PURE_BUILTINS else 'effect'
+        if isinstance(c.func, ast.Attribute):
+            recv = dotted(c.func.value)
+            if recv == 'self':
+                callee = self.prog.find_method(self.cls, c.func.attr)
+                if callee is None or depth <= 0:
+                    return 'effect'
+                return 'effect' if self.has_effect(callee, depth - 1) else (
+                    'probe' if self.has_probe(callee, depth - 1) else None)
+            if recv.startswith('self.'):
+                head = '.'.join(recv.split('.')[:2])
+                return None if head in self.containers else 'effect'
+            if c.func.attr in PURE_METHODS or c.func.attr in (
+                    'add', 'discard', 'remove', 'pop', 'update', 'lstrip',
+                    'rstrip', 'replace', 'encode', 'decode'):
+                # on a local value: a callee which could have an effect under
+                # one of these names is not part of the helpers' vocabulary
+                return None
+        return 'effect'
+
+    def has_effect(self, m, depth=2):
+        key = (id(m.node), 'e')
+        if key not in self._eff:
+            self._eff[key] = False          # recursion
+            self._eff[key] = any(self.kind(m, c, depth) == 'effect'
+                                 for c in calls_in(m.node))
+        return self._eff[key]
+
+    def has_probe(self, m, depth=2):
+        return any(self.kind(m, c, depth) == 'probe' for c in calls_in(m.node))
+
+    def reads(self, m, atom, depth=3):
+        """(instance state read, probes made) to compute the value of a test
+        atom of m: follows plain name assignments of m and self-methods"""
+        state, probes = set(), set()
+        assigns = {}
+        for a in walk(m.node):
+            if isinstance(a, (ast.Assign, ast.AugAssign, ast.AnnAssign)) and \
+                    a.value is not None:
+                tg = a.targets if isinstance(a, ast.Assign) else [a.target]
+                for t in tg:
+                    for nm in stores_in_target(t):
+                        assigns.setdefault(nm, []).append(a.value)
+            elif isinstance(a, ast.For):
+                for nm in stores_in_target(a.target):
+                    assigns.setdefault(nm, []).append(a.iter)
+        seen = set()
+
+        def scan(f, e, d):
+            funcs = set()
+            for n in walk(e):
+                if isinstance(n, ast.Call):
+                    funcs.add(id(n.func))
+                    if isinstance(n.func, ast.Attribute) and \
+                            dotted(n.func.value) == 'self':
+                        callee = self.prog.find_method(self.cls, n.func.attr)
+                        if callee is not None and d > 0 and \
+                                id(callee.node) not in seen:
+                            seen.add(id(callee.node))
+                            for s in callee.node.body:
+                                scan(callee, s, d - 1)
+                        elif callee is None:
+                            probes.add(short(n, 40))
+                        continue
+                    k = self.kind(f, n)
+                    if k in ('probe', 'effect'):
+                        probes.add(short(n, 40))
+            for n in walk(e):
+                if isinstance(n, ast.Attribute) and id(n) not in funcs:
+                    d_ = dotted(n)
+                    if d_.startswith('self.') and d_.count('.') == 1 and \
+                            not any((d_ + '.').startswith(p)
+                                    for p in NEUTRAL_PREFIX):
+                        state.add(d_)
+                elif isinstance(n, ast.Name) and isinstance(n.ctx, ast.Load) \
+                        and f is m and n.id in assigns and \
+                        n.id not in seen and d > 0:
+                    seen.add(n.id)
+                    for v in assigns[n.id]:
+                        scan(f, v, d - 1)
+        scan(m, atom, depth)
+        return state, probes
+
+
+def unconditional_effect(ops, m, eff_ids, what):
+    """decide whether method m passes one of the cfg nodes `eff_ids` on every
+    path which ends without an exception.  Returns None (it does) or
+    ([attrs], test node): a path without the effect is taken on what the
+    object remembers.  Paths without the effect which are decided otherwise
+    stop the analysis."""
+    g = cfg_of(m)
+
+    def region(cut):
+        """nodes on a path entry -> exit of normal edges which avoids the
+        effect nodes and the edges `cut`"""
+        fwd = g.reachable(g.entry.id, skip_nodes=eff_ids, skip_edges=cut,
+                          labels=_NORMAL)
+        if g.exit.id not in fwd:
+            return set()
+        bwd, todo = set(), [g.exit.id]
+        while todo:
+            n = todo.pop()
+            if n in bwd:
+                continue
+            bwd.add(n)
+            for e in g.pred[n]:
+                if e.label in _NORMAL and e.src in fwd and \
+                        (e.src, e.label) not in cut:
+                    todo.append(e.src)
+        return bwd
+
+    def deciding(R):
+        """tests of the region with a way out of it: (node, atom, state read,
+        probes made, edges which stay in the region)"""
+        out = []
+        for nid in sorted(R):
+            n = g.nodes[nid]
+            outs = [e for e in g.succ[nid] if e.label in _NORMAL]
+            if n.kind in ('test', 'for') and any(e.dst not in R for e in outs):
+                atom = n.ast if n.kind == 'test' else n.ast.iter
+                state, probes = ops.reads(m, atom)
+                out.append((n, atom, state, probes,
+                            [(nid, e.label) for e in outs if e.dst in R]))
+        return out
+
+    R = region(set())
+    if not R:
+        return None
+    dec = deciding(R)
+    # the paths which are not taken on a probe of the world
+    cut = {ed for d in dec if d[3] for ed in d[4]}
+    R2 = region(cut)
+    if not R2:
+        t = [d for d in dec if d[3]][0]
+        raise AnalysisError(
+            'UNRECOGNISED-IDIOM %s: %s is passed over when `%s` (which looks '
+            'at the world: %s) says so - whether that establishes the '
+            'post-condition of the operation is not decided'
+            % (m.where, what, short(t[1], 50), ', '.join(sorted(t[3]))))
+    on = [d for d in deciding(R2) if not d[3]]
+    st = [d for d in on if d[2]]
+    if st:
+        return sorted(set().union(*[d[2] for d in st])), st[0][0]
+    raise AnalysisError(
+        'UNRECOGNISED-IDIOM %s: a path which ends without an exception passes '
+        'over %s%s - decided neither by a probe of the file system nor by '
+        'instance state; a legitimate pre-condition cannot be told from a '
+        'skipped operation'
+        % (m.where, what, (' when `%s` says so' % short(on[0][1], 50))
+           if on else ''))
+
+
+def r11_11(prog, rep, rid='R11.11'):
+    rep.rule(rid, 'every operation of the staging helper facade and of its '
+             'backends which has a file system effect reaches it on every '
+             'path that ends without an exception: no early return decided by '
+             'what the helper instance remembers (the file system is shared '
+             'with other helper instances and the payloads)', minimum=19)
+    helper, backends, delegated = staging_backends(prog)
+    if len(backends) < 2:
+        raise AnalysisError('%s: only %d staging backend(s) found'
+                            % (rid, len(backends)))
+    for b in [helper] + backends:
+        ops = BackendOps(prog, b)
+        for op in sorted(delegated):
+            m = prog.find_method(b, op)
+            if m is None:
+                continue                                   # R11.4
+            g = cfg_of(m)
+            eff, sib = set(), {}
+            for n in g.nodes:
+                if isinstance(n.ast, (ast.Raise, ast.Assert)):
+                    continue
+                for c in I.stmt_calls(n):
+                    if ops.kind(m, c) == 'effect':
+                        eff.add(n.id)
+                        if isinstance(c.func, ast.Attribute) and \
+                                dotted(c.func.value) == 'self' and \
+                                c.func.attr in delegated:
+                            sib.setdefault(c.func.attr, set()).add(n.id)
+            if not eff:
+                continue                                   # no-op body: R11.4
+            rep.saw(m)
+            groups = [('its file system effect', eff)] + [
+                ('the operation `self.%s(..)` it relies on' % k, v)
+                for k, v in sorted(sib.items()) if v != eff]
+            bad = None
+            for what, ids in groups:
+                bad = unconditional_effect(ops, m, ids, what)
+                if bad:
+                    bad = (what,) + bad
+                    break
+            if not bad:
+                rep.ok(rid, m, '%s.%s passes its effect on every path which '
+                       'ends without an exception' % (b.name, op), m.loc())
+            else:
+                what, attrs, tn = bad
+                rep.bad(rid, m, 'skipped on instance state',
+                        '%s.%s returns without %s when `%s` says so, a test of '
+                        'what this helper object remembers (%s) and not of the '
+                        'file system.  The file system is shared: another '
+                        'StagingHelper instance (each stager component has its '
+                        'own), a MOVE directive, a task payload or a clean-up '
+                        'can undo what this instance remembers having done; '
+                        'the operation then silently does nothing and the '
+                        'directive is reported as carried out'
+                        % (b.name, op, what, short(tn.ast if tn.kind == 'test'
+                                                   else tn.ast.iter, 50),
+                           ', '.join(attrs)),
+                        m.loc(tn.ast),
+                        history='agent output stager: COPY task:///out.dat > '
+                        'pilot:///exchange/out.0.dat creates <pilot sandbox>/'
+                        'exchange; the agent INPUT stager (another helper '
+                        'instance) runs MOVE pilot:///exchange > task:///'
+                        'inputs for another task; the output stager then gets '
+                        'COPY task:///out.dat > pilot:///exchange/out.2.dat: '
+                        '%s.%s does nothing, `cp` fails, its exit code is not '
+                        'looked at, the task is advanced to '
+                        'TMGR_STAGING_OUTPUT_PENDING and the target does not '
+                        'exist' % (b.name, op))
+            # observation (unchanged tree): exit code of a call-out dropped
+            for n in walk(m.node):
+                if isinstance(n, ast.Expr) and isinstance(n.value, ast.Call) \
+                        and ops.ext(m, n.value.func) == \
+                        'radical.utils.sh_callout':
+                    rep.info(rid, m, '%s.%s drops the (out, err, ret) result '
+                             'of `%s`: a failing command (missing source, '
+                             'missing or read-only target directory, full '
+                             'disk) is not noticed, the directive counts as '
+                             'carried out and the task is advanced although '
+                             'the target does not exist (defect of the '
+                             'unchanged tree, not armed as a rule)'
+                             % (b.name, op, short(n.value, 50)), m.loc(n))
+
+
+# ------------------------------------------------------------------------------
 #
 def run(prog, rep, tier):
     rep.decided = ('over the finite domain of the six action constants: every '
@@ -2613,6 +3298,8 @@ def run(prog, rep, tier):
     r11_7(prog, rep)
     r11_8(prog, rep)
     r11_9(prog, rep)
+    rep.attempt(r11_10, prog, rep)
+    rep.attempt(r11_11, prog, rep)
     if tier == 'thorough':
         r11_4s(prog, rep)
         r11_6b(prog, rep, rid='R11.6s', sweep=True)
@@ -3071,4 +3758,190 @@ MUTATIONS += [
         (_AI, "        context['pwd'] = context['task']       # !!!", "        context['pwd'] = context['pilot']      # !!!")]),
     dict(name='R11.2 corpus C11-r3, class table of actions loses DOWNLOAD', rules=('R11.2',), edits=_CORPUS['C11-r3'] + [
         (_AI, "    _ACTIONS = [rpc.LINK, rpc.COPY, rpc.MOVE, rpc.TARBALL, rpc.DOWNLOAD]", "    _ACTIONS = [rpc.LINK, rpc.COPY, rpc.MOVE, rpc.TARBALL]")]),
+]
+
+
+# ------------------------------------------------------------------------------
+# R11.10 / R11.11 (round 3: seeds C11-e, C11-f)
+#
+_TI_ADD   = "                tar_file.add(src.path, arcname=tgt.path)\n"
+_AI_XALL  = "                tar.extractall(path='/')\n"
+_AI_UNTAR = ("                tar = tarfile.open(tarball)\n"
+             "                tar.extractall(path='/')\n"
+             "                tar.close()\n")
+_TI_DEF   = ("    # --------------------------------------------------------------------------\n"
+             "    #\n"
+             "    def _handle_task(self, task, actionables):\n")
+_H_LOCAL_INIT = ("class StagingHelper_Local(object):\n\n"
+                 "    def __init__(self, log):\n"
+                 "        self._log = log\n")
+_H_LOCAL_INIT_DIRS = ("class StagingHelper_Local(object):\n\n"
+                      "    def __init__(self, log):\n"
+                      "        self._log  = log\n"
+                      "        self._dirs = set()\n")
+_H_MKDIR = ("    def mkdir(self, tgt, flags):\n"
+            "        self._log.debug('mkdir %s', tgt)\n"
+            "        tgt = ru.Url(tgt).path\n"
+            "        ru.rec_makedir(tgt)\n")
+_H_RMDIR = ("    def rmdir(self, tgt, flags):\n"
+            "        tgt = ru.Url(tgt).path\n"
+            "        os.rmdir(tgt)\n")
+_H_CP    = ("        self.mkdir(os.path.dirname(tgt), flags)\n"
+            "        ru.sh_callout('cp -r %s %s' % (src, tgt))\n")
+_H_FACADE_INIT  = "        self._log  = log\n\n        try   : self._backend"
+_H_FACADE_MKDIR = ("    def mkdir(self, tgt, flags=None):\n"
+                   "        self._log.debug('mkdir %s', tgt)\n"
+                   "        self._backend.mkdir(tgt, flags)\n")
+
+MUTATIONS += [
+    dict(name='R11.10 seed C11-e: members relative to the task sandbox when inside it, agent unpacks in the task sandbox', rules=('R11.10',), edits=[
+        (_TI, _TI_ADD,
+              "                arcname = tgt.path\n"
+              "                if arcname.startswith(sandbox.path):\n"
+              "                    arcname = arcname[len(sandbox.path):]\n\n"
+              "                tar_file.add(src.path, arcname=arcname)\n"),
+        (_AI, _AI_XALL, "                tar.extractall(path=task_sandbox.path)\n")]),
+    dict(name='R11.10 agent alone unpacks in the task sandbox', rules=('R11.10',), edits=[
+        (_AI, _AI_XALL, "                tar.extractall(path=task_sandbox.path)\n")],
+         note='members carry absolute paths: everything lands below <task sandbox>/<abs path>'),
+    dict(name='R11.10 agent unpacks in the pilot sandbox', rules=('R11.10',), edits=[
+        (_AI, _AI_XALL, "                tar.extractall(path=pilot_sandbox.path)\n")]),
+    dict(name='R11.10 agent unpacks in its working directory', rules=('R11.10',), edits=[
+        (_AI, _AI_XALL, "                tar.extractall()\n")]),
+    dict(name='R11.10 client alone names members relative to the task sandbox', rules=('R11.10',), edits=[
+        (_TI, _TI_ADD, "                tar_file.add(src.path, arcname=os.path.relpath(tgt.path, sandbox.path))\n")],
+         note='the agent still unpacks on /'),
+    dict(name='R11.10 conditional member name as one expression (removeprefix)', rules=('R11.10',), edits=[
+        (_TI, _TI_ADD, "                tar_file.add(src.path, arcname=tgt.path.removeprefix(sandbox.path))\n"),
+        (_AI, _AI_XALL, "                tar.extractall(path=task_sandbox.path)\n")]),
+    dict(name='R11.10 conditional member name as a conditional expression', rules=('R11.10',), edits=[
+        (_TI, _TI_ADD,
+              "                inside = tgt.path.startswith(sandbox.path)\n"
+              "                tar_file.add(src.path, arcname=(tgt.path[len(sandbox.path):]\n"
+              "                                                if inside else tgt.path))\n"),
+        (_AI, _AI_XALL, "                tar.extractall(path=task_sandbox.path)\n")]),
+    dict(name='R11.10 member named by the source path (arcname dropped)', rules=('R11.10',), edits=[
+        (_TI, _TI_ADD, "                tar_file.add(src.path)\n")]),
+    dict(name='R11.11 seed C11-f: local backend remembers the directories it created', rules=('R11.11',), edits=[
+        (_H, _H_LOCAL_INIT, _H_LOCAL_INIT_DIRS),
+        (_H, _H_MKDIR,
+             "    def mkdir(self, tgt, flags):\n"
+             "        tgt = ru.Url(tgt).path\n"
+             "        if tgt in self._dirs:\n"
+             "            return\n"
+             "        self._log.debug('mkdir %s', tgt)\n"
+             "        ru.rec_makedir(tgt)\n"
+             "        self._dirs.add(tgt)\n"),
+        (_H, _H_RMDIR,
+             "    def rmdir(self, tgt, flags):\n"
+             "        tgt = ru.Url(tgt).path\n"
+             "        os.rmdir(tgt)\n"
+             "        self._dirs.discard(tgt)\n")]),
+    dict(name='R11.11 directory cache as a guarded effect (no early return)', rules=('R11.11',), edits=[
+        (_H, _H_LOCAL_INIT, _H_LOCAL_INIT_DIRS),
+        (_H, _H_MKDIR,
+             "    def mkdir(self, tgt, flags):\n"
+             "        tgt = ru.Url(tgt).path\n"
+             "        if tgt not in self._dirs:\n"
+             "            self._log.debug('mkdir %s', tgt)\n"
+             "            ru.rec_makedir(tgt)\n"
+             "            self._dirs.add(tgt)\n")]),
+    dict(name='R11.11 directory cache asked through a predicate method', rules=('R11.11',), edits=[
+        (_H, _H_LOCAL_INIT, _H_LOCAL_INIT_DIRS),
+        (_H, _H_MKDIR,
+             "    def _seen(self, path):\n"
+             "        return path in self._dirs\n\n"
+             "    def mkdir(self, tgt, flags):\n"
+             "        tgt = ru.Url(tgt).path\n"
+             "        if self._seen(tgt):\n"
+             "            return\n"
+             "        ru.rec_makedir(tgt)\n"
+             "        self._dirs.add(tgt)\n")]),
+    dict(name='R11.11 sibling site: copy skips the parent mkdir for directories it has seen', rules=('R11.11',), edits=[
+        (_H, _H_LOCAL_INIT, _H_LOCAL_INIT_DIRS),
+        (_H, _H_CP,
+             "        parent = os.path.dirname(tgt)\n"
+             "        if parent not in self._dirs:\n"
+             "            self.mkdir(parent, flags)\n"
+             "            self._dirs.add(parent)\n"
+             "        ru.sh_callout('cp -r %s %s' % (src, tgt))\n")]),
+    dict(name='R11.11 facade remembers the directories it was asked for', rules=('R11.11',), edits=[
+        (_H, _H_FACADE_INIT, "        self._log  = log\n        self._made = set()\n\n        try   : self._backend"),
+        (_H, _H_FACADE_MKDIR,
+             "    def mkdir(self, tgt, flags=None):\n"
+             "        if str(tgt) in self._made:\n"
+             "            return\n"
+             "        self._made.add(str(tgt))\n"
+             "        self._log.debug('mkdir %s', tgt)\n"
+             "        self._backend.mkdir(tgt, flags)\n")]),
+]
+
+SILENT += [
+    dict(name='member name with the leading slash stripped by hand (what tarfile.add does)', edits=[
+        (_TI, _TI_ADD, "                tar_file.add(src.path, arcname=tgt.path.lstrip('/'))\n")]),
+    dict(name='member name through a local', edits=[
+        (_TI, _TI_ADD, "                member = tgt.path\n                tar_file.add(src.path, arcname=member)\n")]),
+    dict(name='extraction root os.sep through a local, passed by position', edits=[
+        (_AI, _AI_XALL, "                root = os.sep\n                tar.extractall(root)\n")]),
+    dict(name='tarball unpacked in a with block', edits=[
+        (_AI, _AI_UNTAR,
+              "                with tarfile.open(tarball) as tar:\n"
+              "                    tar.extractall(path='/')\n")]),
+    dict(name='both sites changed consistently: every member relative to the task sandbox, unpacked there', edits=[
+        (_TI, _TI_ADD, "                tar_file.add(src.path, arcname=os.path.relpath(tgt.path, sandbox.path))\n"),
+        (_AI, _AI_XALL, "                tar.extractall(path=task_sandbox.path)\n")]),
+    dict(name='both sites consistent, sandbox prefix cut by length after a refusal of outside targets', edits=[
+        (_TI, _TI_ADD,
+              "                if not tgt.path.startswith(sandbox.path):\n"
+              "                    raise ValueError('tarball target outside of the task sandbox')\n"
+              "                prefix = len(sandbox.path)\n"
+              "                tar_file.add(src.path, arcname=tgt.path[prefix:])\n"),
+        (_AI, _AI_XALL, "                tar.extractall(path=task_sandbox.path)\n")]),
+    dict(name='packing moved into a method of the client stager', edits=[
+        (_TI, _TI_ADD, "                self._pack(tar_file, src, tgt)\n"),
+        (_TI, _TI_DEF,
+              "    # --------------------------------------------------------------------------\n"
+              "    #\n"
+              "    def _pack(self, tar_file, src, tgt):\n"
+              "        tar_file.add(src.path, arcname=tgt.path)\n\n\n" + _TI_DEF)]),
+    dict(name='local mkdir remembers what it created but always goes to the file system', edits=[
+        (_H, _H_LOCAL_INIT, _H_LOCAL_INIT_DIRS),
+        (_H, _H_MKDIR,
+             "    def mkdir(self, tgt, flags):\n"
+             "        self._log.debug('mkdir %s', tgt)\n"
+             "        tgt = ru.Url(tgt).path\n"
+             "        ru.rec_makedir(tgt)\n"
+             "        self._dirs.add(tgt)\n")]),
+    dict(name='local mkdir: instance state decides only about a log line', edits=[
+        (_H, _H_LOCAL_INIT, _H_LOCAL_INIT_DIRS),
+        (_H, _H_MKDIR,
+             "    def mkdir(self, tgt, flags):\n"
+             "        tgt = ru.Url(tgt).path\n"
+             "        if tgt in self._dirs:\n"
+             "            self._log.debug('mkdir %s (again)', tgt)\n"
+             "        else:\n"
+             "            self._log.debug('mkdir %s', tgt)\n"
+             "            self._dirs.add(tgt)\n"
+             "        ru.rec_makedir(tgt)\n")]),
+    dict(name='local mkdir with renamed local', edits=[
+        (_H, _H_MKDIR,
+             "    def mkdir(self, tgt, flags):\n"
+             "        self._log.debug('mkdir %s', tgt)\n"
+             "        path = ru.Url(tgt).path\n"
+             "        ru.rec_makedir(path)\n")]),
+    dict(name='local copy: parent directory through an extracted method', edits=[
+        (_H, _H_CP,
+             "        self._parent(tgt, flags)\n"
+             "        ru.sh_callout('cp -r %s %s' % (src, tgt))\n\n"
+             "    def _parent(self, tgt, flags):\n"
+             "        self.mkdir(os.path.dirname(tgt), flags)\n")]),
+    dict(name='local delete tolerates OSError only', edits=[
+        (_H, "        try   : os.unlink(tgt)\n        except: pass\n",
+             "        try:\n            os.unlink(tgt)\n        except OSError:\n            pass\n")]),
+    dict(name='local copy looks at the exit code of cp', edits=[
+        (_H, _H_CP,
+             "        self.mkdir(os.path.dirname(tgt), flags)\n"
+             "        out, err, ret = ru.sh_callout('cp -r %s %s' % (src, tgt))\n"
+             "        if ret:\n"
+             "            raise RuntimeError('copy failed: %s' % err)\n")]),
 ]
